@@ -163,6 +163,11 @@ def with_raising(case):
     return case
 
 
+def extra_passes(run, tier, shard, nshards):
+    from props._cc import exhaustive_sweep
+    exhaustive_sweep(run, tier, shard, nshards, lambda case, tr: check_trace(case, tr)[0])
+
+
 REQUIRED_CLASSES = ['seen:degraded', 'seen:hit', 'seen:miss', 'seen:load', 'seen:reset', 'seen:keep', 'seen:raise', 'all_three_outcomes_and_reset',
                     'eff_algo:no', 'eff_algo:inf', 'module:safe']
 TRIGGERS = {}
